@@ -527,6 +527,11 @@ Section Sat.
        In (f, TRef t, None) (cl_fields d) -> is_enum prog t = false ->
        (forall cd, In cd (ctors_of d) -> assoc f (cd_inits cd) = None) ->
        two_candidates t (o_seq r) -> has_var_rec (o_id r) f) /\
+    (* the arguments of every atom of the plan are values of the types of the parameters (of the predicate and of its super-predicates):
+       in particular an object VARIABLE handed in as argument has been narrowed to the instances of the parameter's type *)
+    (forall ar, In ar (s_atoms sol) -> a_state ar <> Inactive ->
+       exists fuel ch, rule_chain fuel prog (a_pred ar) = Some ch /\
+         forall x t v, In (x, t) (chain_params ch) -> own sol (a_id ar) x = Some v -> has_type prog sol t v) /\
     (* an object variable created for a declaration `T x;`, for an uninstantiated field `T f;` of a new object or for an unassigned
        parameter `T p` of a new atom has, as initial domain, exactly the instances of T and of its subtypes that exist at that point
        (for an enum: exactly the declared and included values) *)
